@@ -219,12 +219,25 @@ def streams(rng, tier):
     deep = []
     for d in ((100000, 1000000) if q else (100000, 1000000, 4000000)):
         for unit, close in (("c0", ""), ("d81e", ""), ("81", ""), ("9f", "ff"), ("a100", ""), ("bf00", "ff"), ("c081", ""), ("c19fc2", "ff"), ("82c0", "00")):
-            deep.append(f"dec skip {unit * d}00{close * d}")
-            deep.append(f"dec skip {unit * d}")                                   # cut before the bottom
+            deep.append(f"dec skip {unit * d}00{close * d} #whole=1")
+            deep.append(f"dec skip {unit * d} #whole=0")                          # cut before the bottom
         deep.append(f"dec datatype {'c0' * d}00")
         deep.append(f"dec tag {'c0' * d}00")
-    s8 = Stream("nesting-as-deep-as-the-input", "hcore", deep, judge=judge_acc,
-                rule="dec skip on chains of 10^5 / 10^6 (thorough 4*10^6) tags, definite / indefinite arrays and maps, mixed; whole and cut before the bottom: an answer (no stack overflow), the model's")
+    def judge_deep(op, impl, model, spec):
+        # the oracle is computed here (a whole chain is skipped to its end, a cut one ends in end-of-input); the model is compared where the model
+        # DRIVER itself survives the depth (its recursion is structural: at 10^7 levels the driver process may run out of stack, which says
+        # nothing about the code)
+        w = op.split(" ")
+        n = len(w[2]) // 2
+        if w[1] == "skip":
+            whole = "#whole=1" in w
+            if whole and impl != f"ok () {n}": return "violation"
+            if not whole and not impl.startswith("err eoi"): return "violation"
+        r = judge_acc(op, impl, model, spec)
+        return "ok" if r == "corr" and model.startswith("crash") else r
+    s8 = Stream("nesting-as-deep-as-the-input", "hcore", deep, judge=judge_deep,
+                rule="dec skip on chains of 10^5 / 10^6 (thorough 4*10^6) tags, definite / indefinite arrays and maps, mixed; whole and cut before the bottom: an answer (no stack overflow): "
+                     "position = length for a whole chain, end-of-input for a cut one; the model's answer wherever the model driver survives the depth")
     s8.shrinkable = False
     yield s8
     # rendering: every head at its extreme arguments through the diagnostic display (integers at both ends of their range included)
